@@ -101,7 +101,19 @@ def coverage_zero_actions(txt, actions):
 # ----------------------------------------------------------------------------------------------
 # cargo
 # ----------------------------------------------------------------------------------------------
+def ensure_generated():
+    """the cargo workspace lists the generated crates as members: make sure they exist (as empty crates if need be)"""
+    empty = os.path.join(WORK, "empty.ndjson")
+    ensure_dirs()
+    open(empty, "w").close()
+    if not os.path.exists(os.path.join(HARNESS, "genwire", "all", "Cargo.toml")):
+        gen_types(os.path.join(HARNESS, "genwire"), "genwire", 12, [empty])
+    if not os.path.exists(os.path.join(HARNESS, "genabi", "Cargo.toml")):
+        subprocess.run([sys.executable, os.path.join(ROOT, "gen", "gen_abi.py"), os.path.join(HARNESS, "genabi"), empty], check=True,
+                       stdout=subprocess.PIPE)
+
 def cargo_build(pkg, release=False, timeout=3000, features=None):
+    ensure_generated()
     cmd = ["cargo", "build", "--offline", "-p", pkg]
     if release:
         cmd.append("--release")
